@@ -24,15 +24,15 @@ CLASSES = ('Bits', 'BitArray', 'ConstBitStream', 'BitStream')
 MUTABLE = ('BitArray', 'BitStream')
 STREAM = ('ConstBitStream', 'BitStream')
 ROUTES = ('bin', 'hex', 'oct', 'token', 'token_hit', 'bytes', 'bytes_win', 'bytearray', 'memoryview', 'bools', 'bitarray',
-          'bitarray_win', 'bitarray_le', 'bitarray_win_le', 'array', 'bytesio', 'bytesio_win', 'slice', 'slice_step', 'copy', 'ctor_of_other', 'file', 'file', 'file_len',
-          'file_len', 'file_off', 'file_off_len', 'handle', 'handle_len', 'handle_off', 'fromstring', 'join', 'pack', 'int_zeros', 'uint_kw',
+          'bitarray_win', 'bitarray_le', 'bitarray_win_le', 'frozenbitarray', 'array', 'bytesio', 'bytesio_win', 'slice', 'slice_step', 'copy', 'ctor_of_other', 'file', 'file', 'file_len',
+          'file_len', 'file_off', 'file_off_len', 'handle', 'handle_len', 'handle_off', 'fromstring', 'join', 'pack', 'pack1', 'int_zeros', 'uint_kw',
           'iter_gen', 'iter_objs', 'iter_iterator')
 FILE_ROUTES = ('file', 'file_len', 'file_off', 'file_off_len', 'handle', 'handle_len', 'handle_off')
 
 READ_OPS = ('len', 'bool', 'iter', 'getitem', 'getslice', 'add', 'radd', 'mul', 'rmul', 'invert', 'lshift', 'rshift', 'and', 'or', 'xor',
             'eq', 'ne', 'eq_lit', 'hash', 'contains', 'find', 'rfind', 'findall', 'count', 'all', 'any', 'startswith', 'endswith',
             'cut', 'split', 'join', 'tobytes', 'bytes', 'tobitarray', 'tofile', 'unpack', 'interp', 'str', 'pp', 'copy', 'to_cls',
-            'and_twin', 'add_twin', 'array_from', 'hash_eq', 'pack_bits', 'in_set', 'eq_fresh', 'eq_fresh')
+            'and_twin', 'add_twin', 'array_from', 'hash_eq', 'pack_bits', 'in_set', 'eq_fresh', 'eq_fresh', 'remake_same')
 STREAM_OPS = ('read', 'peek', 'readlist', 'setpos', 'readto', 'bytealign', 'getpos')
 MUT_OPS = ('append', 'prepend', 'insert', 'overwrite', 'delslice', 'delitem', 'setitem', 'setslice', 'set', 'invert_ip', 'reverse', 'rol',
            'ror', 'byteswap', 'ilshift', 'irshift', 'imul', 'iand', 'ior', 'ixor', 'clear', 'replace', 'iadd', 'prop')
@@ -112,6 +112,7 @@ class ERoute(Engine):
             # construction failures are C15 / C17 territory; fall back to a plain pair so the run is still valid
             x = getattr(B, cls)(bin=''.join(c for c in str(cfg.get('bits', '')) if c in '01'))
         self.X = x
+        self.bits0 = x.bin
         self.T = self._twin(x)
         self.derived = []          # (op, object derived from X, object derived from T): must stay equal for ever
         return {'route': cfg.get('route'), 'built': st, 'len': len(kernel.safe_bin(x))}
@@ -204,6 +205,9 @@ class ERoute(Engine):
                 self.init_incs.append(self.inc(f'route={route}|construct|differs-from-the-same-items-as-a-list', items=[repr(v) for v in items][:40],
                                                got=x.bin[:100], as_list=ref[:100] if st_ == 'ok' else kernel.exc_name(ref)))
             return x
+        if route == 'frozenbitarray':
+            # an immutable (hashable) bitarray as the source: a source like any other
+            return C(_ba.frozenbitarray(bits))
         if route == 'bitarray_le':
             # the same bit sequence held by a bitarray of the other (little-endian) storage order
             return C(_ba.bitarray(bits, endian='little'))
@@ -230,6 +234,10 @@ class ERoute(Engine):
         if route == 'pack':
             r = B.pack('bits, bin', B.Bits(bin=bits[:n // 2]) if n // 2 else B.Bits(), bits[n // 2:])
             return C(r)
+        if route == 'pack1':
+            # pack with a single 'bits' token: the packed stream itself (for BitStream), else an object made from it
+            r = B.pack('bits', lit(bits) if n % 2 else B.Bits(bin=bits) if n else B.Bits())
+            return r if cls == 'BitStream' else C(r)
         if route == 'int_zeros':
             x = C(n)
             return x if cls not in MUTABLE or not n else (lambda y: (y.__setitem__(slice(None), lit(bits)), y)[1])(x)
@@ -410,6 +418,15 @@ class ERoute(Engine):
             if st != 'ok':
                 return None
             return [x == y, y == x, x != y, y.bin == kernel.safe_bin(y)]
+        if op == 'remake_same':
+            # the same route over the same source once more: it builds what it built the first time, whatever has been done since to
+            # the objects it built before (only asked while the source itself is untouched)
+            if getattr(self, 'unlinked', False) or self.cfg.get('big') or self.cfg.get('route') in ('pack1',) and False:
+                return None
+            st, y = call(self._build, self.cfg, self.cls)
+            if st != 'ok':
+                return ['raised', kernel.exc_name(y)]
+            return [y.bin == self.bits0, len(y) == len(self.bits0)]
         if op == 'eq_lit':
             return [x == L, x == lit(x.bin), x == x.tobytes() if len(x) % 8 == 0 else None, x == 3, x == None]   # noqa
         if op == 'hash':
